@@ -4,6 +4,14 @@ mod oracle;
 use oracle::*;
 use std::fmt::Debug;
 
+pub static QUIET_PANIC: std::sync::atomic::AtomicBool = std::sync::atomic::AtomicBool::new(false);
+/// run `f`, treating a panic as "nothing was handed out" (used where the pristine code answers with unimplemented!())
+pub fn no_panic_or<T>(f: impl FnOnce() -> T + std::panic::UnwindSafe) -> Option<T> {
+    QUIET_PANIC.store(true, std::sync::atomic::Ordering::SeqCst);
+    let r = std::panic::catch_unwind(f).ok();
+    QUIET_PANIC.store(false, std::sync::atomic::Ordering::SeqCst);
+    r
+}
 pub struct Ctx { pub n: u64, pub rng: Rng }
 impl Ctx {
     fn cex(&self, check: &str, input: String, got: String, want: String) -> ! {
@@ -33,6 +41,7 @@ fn main() {
     // a panic inside the real crate is a counterexample too ("never panics")
     let hook_probe = probe.to_string();
     std::panic::set_hook(Box::new(move |info| {
+        if QUIET_PANIC.load(std::sync::atomic::Ordering::SeqCst) { return; }
         let msg = format!("{}", info).replace('"', "'").replace('\n', " ");
         println!("CEX {{\"check\":\"panic in probe {}\",\"input\":\"see message\",\"got\":\"{}\",\"want\":\"no panic\"}}", hook_probe, msg);
         std::process::exit(0);
@@ -71,6 +80,8 @@ fn main() {
         "r1cs.lazy" => gadgets::lazy(&mut cx),
         #[cfg(feature = "r1cs")]
         "r1cs.alloc" => gadgets::alloc(&mut cx),
+        #[cfg(feature = "r1cs")]
+        "r1cs.unforced" => gadgets::unforced(&mut cx),
         #[cfg(feature = "r1cs")]
         "r1cs.d6replay" => { println!("{}", if gadgets::d6_replay() { "D6 reproduces" } else { "D6 does not reproduce" }); return; }
         "all" => {
